@@ -49,6 +49,7 @@ def setup(ctx):
     ctx.require("monitor", "overlapping_calls", 40)
     ctx.require("monitor", "late_tail_calls", 40)
     ctx.require("monitor", "l3_connect_stall_calls", 16)
+    ctx.require("monitor", "l3_server_variety_calls", 48)
 
 
 CAP = 10 * 1024 * 1024
@@ -546,6 +547,56 @@ def run_l3_connect_stall(ctx):
         shutil.rmtree(tmp, ignore_errors=True)
 
 
+def run_l3_server_varieties(ctx):
+    """The same well-formed response from servers that differ in everything TLS lets them differ in: key type of the
+    certificate, TLS 1.2 only, a single cipher family, a certificate request the client cannot satisfy.  Every entry
+    point returns that response."""
+    import ssl
+
+    from nauyaca.client.session import GeminiClient
+
+    from vf import peers
+    from vf.gen import certs
+
+    body = "Gr\u00fc\u00dfe from a varied server\n"
+    stream = b"20 text/gemini; charset=utf-8\r\n" + body.encode()
+
+    def beh(conn):
+        conn.read_line(timeout=4)
+        conn.send(stream)
+        conn.close()
+
+    for kind in ("ec", "rsa", "ed25519"):
+        for vname, kw in (("default", {}), ("tls12-only", {"max_version": ssl.TLSVersion.TLSv1_2}), ("tls12-chacha-only", {"max_version": ssl.TLSVersion.TLSv1_2, "ciphers": "ECDHE+CHACHA20"}),
+                          ("asks-for-a-client-certificate", {"request_cert": True})):
+            with peers.ScriptedPeer(certs.identity("c13-var-" + kind, kind), beh, ctx_kwargs=kw) as p:
+                for entry in ("get", "upload", "delete", "get-raw"):
+                    url = f"gemini://127.0.0.1:{p.port}/x"
+
+                    async def go():
+                        c = GeminiClient(timeout=8, trust_on_first_use=False, **({"decode_text": False} if entry == "get-raw" else {}))
+                        if entry.startswith("get"):
+                            return await c.get(url, follow_redirects=False)
+                        if entry == "delete":
+                            return await c.delete(url)
+                        return await c.upload(url, b"abc", mime_type="text/plain")
+
+                    try:
+                        r = asyncio.run(go())
+                        res = ("response", r.status, r.meta, r.body)
+                    except BaseException as e:  # noqa: BLE001
+                        res = ("error", type(e).__name__, str(e)[:100])
+                    ctx.count("monitor", "l3_calls")
+                    ctx.count("monitor", "l3_server_variety_calls")
+                    want = ("response", 20, "text/gemini; charset=utf-8", body.encode() if entry == "get-raw" else body)
+                    wit = {"level": "L3", "server": f"{kind} certificate, {vname}", "entry": entry, "stream": stream, "result": res}
+                    if res != want:
+                        ctx.violation(f"wrong-result:server-variety={vname}:entry={entry.split('-')[0]}", "a well-formed response from this kind of server was not returned as it is", wit)
+                    else:
+                        ctx.count("outcome", "L3:server-variety:response")
+                    ctx.case(("L3", "server-variety", kind, vname, entry, res[0]), True, sample=wit)
+
+
 def run_l3_overlap(ctx):
     """Several calls in flight at the same time on ONE GeminiClient (as a relay or a crawler uses it): every
     call must end as it would alone - its own stream, its own error - whatever the others do meanwhile."""
@@ -716,3 +767,5 @@ def run(ctx):
         run_l3_late_tail(ctx)
     if ctx.mine(5):
         run_l3_connect_stall(ctx)
+    if ctx.mine(6) or ctx.nshards == 1:
+        run_l3_server_varieties(ctx)
